@@ -4,7 +4,7 @@
 //! The core idea is that we install a custom panic hook (`init_panic_hook`) that runs when a thread
 //! panics. That hook tries to print information about the failing schedule by calling
 //! `persist_failure`.
-use std::cell::Cell;
+use std::cell::{Cell, RefCell};
 use std::fs::OpenOptions;
 use std::io::{ErrorKind, Write};
 use std::panic;
@@ -15,20 +15,38 @@ use crate::config::{Config, FailurePersistence};
 use crate::runtime::execution::{CurrentSchedule, ExecutionState};
 use crate::scheduler::serialization::serialize_schedule;
 
-// When we last persisted a schedule. Used so that we don't persist the same schedule twice.
+// When we last persisted a schedule in the current execution. Used so that we don't persist the same schedule twice.
 thread_local! {
-    static SCHEDULE_PERSISTED_AT: Cell<usize> = const { Cell::new(0) };
+    static SCHEDULE_PERSISTED_AT: Cell<Option<usize>> = const { Cell::new(None) };
+}
+
+// The persistence mode of the execution currently running on this thread. The panic hook is installed once per
+// process, so it must not keep using the configuration of whichever run happened to install it.
+thread_local! {
+    static CURRENT_PERSISTENCE: RefCell<Option<FailurePersistence>> = const { RefCell::new(None) };
+}
+
+/// Called at the start of every execution: forget what earlier executions on this thread persisted, and remember
+/// how this execution wants its failures persisted.
+pub(crate) fn start_execution(config: &Config) {
+    SCHEDULE_PERSISTED_AT.set(None);
+    CURRENT_PERSISTENCE.with(|p| *p.borrow_mut() = Some(config.failure_persistence.clone()));
 }
 
 /// Persist (to stderr or to file) a message describing how to replay a failing schedule.
 pub fn persist_failure(config: &Config) {
+    persist_failure_as(&config.failure_persistence)
+}
+
+fn persist_failure_as(failure_persistence: &FailurePersistence) {
     // Don't serialize the same schedule twice.
-    if SCHEDULE_PERSISTED_AT.get() == CurrentSchedule::len() {
+    if SCHEDULE_PERSISTED_AT.get() == Some(CurrentSchedule::len()) {
         return;
     }
 
-    match &config.failure_persistence {
-        FailurePersistence::None => {}
+    match failure_persistence {
+        // Nothing was emitted, so there is nothing to remember either
+        FailurePersistence::None => return,
         FailurePersistence::File(directory) => {
             let serialized_schedule = serialize_schedule(&CurrentSchedule::get_schedule());
 
@@ -51,7 +69,7 @@ pub fn persist_failure(config: &Config) {
         }
     }
 
-    SCHEDULE_PERSISTED_AT.set(CurrentSchedule::len());
+    SCHEDULE_PERSISTED_AT.set(Some(CurrentSchedule::len()));
 }
 
 /// Persist the given serialized schedule to a file and return the new file's path. The file will be
@@ -96,7 +114,9 @@ pub fn init_panic_hook(config: Config) {
             eprintln!("Task failed, serializing schedule");
             let task_name = ExecutionState::failing_task();
             eprintln!("test panicked in task '{task_name}'");
-            persist_failure(&config);
+            // Use the configuration of the execution that is failing, not the one that installed the hook
+            let current = CURRENT_PERSISTENCE.with(|p| p.borrow().clone());
+            persist_failure_as(current.as_ref().unwrap_or(&config.failure_persistence));
             original_hook(panic_info);
         }));
     });
